@@ -29,7 +29,7 @@ from .values import (
     to_index,
     JS_WHITESPACE,
 )
-from .errors import JSError, JSRangeError, MemoryLimitError, TimeLimitError
+from .errors import JSError, JSRangeError, JSTypeError, MemoryLimitError, TimeLimitError
 
 _FLOAT_PREFIX_RE = re.compile(
     r"[+-]?(?:Infinity|[0-9]+\.?[0-9]*(?:[eE][+-]?[0-9]+)?|\.[0-9]+(?:[eE][+-]?[0-9]+)?)"
@@ -363,6 +363,12 @@ class Context:
             if proto is NULL or proto is None:
                 obj._prototype = None
             elif isinstance(proto, JSObject):
+                link = proto
+                while link is not None:
+                    if link is obj:
+                        # (every walk along the chain would never end)
+                        raise JSTypeError("Cyclic __proto__ value")
+                    link = link._prototype
                 obj._prototype = proto
             return obj
 
